@@ -3,6 +3,10 @@ import PacketVerif.Drv.Views
 import PacketVerif.Drv.Encode
 import PacketVerif.Drv.Dns
 import PacketVerif.Drv.Tables
+import PacketVerif.Drv.Ping
+import PacketVerif.Drv.Ndp
+import PacketVerif.Drv.Icmp6Hunt
+import PacketVerif.Drv.ArpHunt
 open PV
 
 /-- dispatch one protocol line to the module that knows the op -/
@@ -15,7 +19,11 @@ def dispatch (line : String) : String :=
       Drv.Views.handle,
       Drv.Encode.handle,
       Drv.Dns.handle,
-      Drv.Tables.handle
+      Drv.Tables.handle,
+      Drv.Ping.handle,
+      Drv.Ndp.handle,
+      Drv.Icmp6Hunt.handle,
+      Drv.ArpHunt.handle
     ]
     match hs.findSome? (fun h => h cmd args) with
     | some r => r
